@@ -497,6 +497,109 @@ func directed(c *core.Ctx, r *core.Rand, i int) {
 	leak(c, base, "directed", label)
 }
 
+// lateConn hands the bytes of a Read over only when the owner closes the connection: the Read that completes a
+// response "wins the race" against the Close that abandons the connection.
+type lateConn struct {
+	*memnet.Conn
+	armed   atomic.Bool
+	holding atomic.Int64
+	closing chan struct{}
+	once    sync.Once
+}
+
+func (l *lateConn) Read(p []byte) (int, error) {
+	n, err := l.Conn.Read(p)
+	if l.armed.Load() && n > 0 {
+		l.holding.Add(1)
+		<-l.closing
+	}
+	return n, err
+}
+
+func (l *lateConn) Close() error {
+	l.once.Do(func() { close(l.closing) })
+	return l.Conn.Close()
+}
+
+// lateResponse: the response to a pending call is completely read at the very moment the connection is abandoned
+// (the caller's context ends, or Close runs under the pending call). Nothing may stay behind.
+func lateResponse(c *core.Ctx, r *core.Rand, i int) {
+	base := len(census.Goroutines())
+	w := newWorld(c, "none", 1<<30)
+	var mu sync.Mutex
+	var lcs []*lateConn
+	dial := func(ctx context.Context) (net.Conn, error) {
+		conn, err := w.dialer(ctx)
+		if err != nil {
+			return nil, err
+		}
+		l := &lateConn{Conn: conn.(*memnet.Conn), closing: make(chan struct{})}
+		mu.Lock()
+		lcs = append(lcs, l)
+		mu.Unlock()
+		return l, nil
+	}
+	cl, err := kmipclient.Dial("mem", kmipclient.WithDialerUnsafe(dial), kmipclient.EnforceVersion(kmip.V1_4))
+	if err != nil {
+		panic(err)
+	}
+	variant := i % 3
+	label := fmt.Sprintf("late%d-%s", i, []string{"context-cancelled", "deadline", "close-under-call"}[variant])
+	for k, n := 0, r.Intn(3); k < n; k++ {
+		w.call(cl, fmt.Sprintf("%s-warm%d", label, k))
+	}
+	mu.Lock()
+	cur := lcs[len(lcs)-1]
+	mu.Unlock()
+	cur.armed.Store(true)
+	ctx, cancel := context.WithCancel(context.Background())
+	if variant == 1 {
+		var dc context.CancelFunc
+		ctx, dc = context.WithTimeout(ctx, 30*time.Millisecond)
+		defer dc()
+	}
+	done := make(chan error, 1)
+	go func() {
+		var err error
+		core.Guard(func() { _, err = cl.Activate(label + "-x").ExecContext(ctx) })
+		done <- err
+	}()
+	// wait until the whole response sits in the held Read
+	for k := 0; k < 5000 && cur.holding.Load() == 0; k++ {
+		time.Sleep(time.Millisecond)
+	}
+	if cur.holding.Load() == 0 {
+		c.Inconclusive("late-response: the response never reached the held Read")
+	} else {
+		c.Count("late_responses_held", 1)
+	}
+	switch variant {
+	case 0:
+		cancel()
+	case 2:
+		core.Guard(func() { cl.Close() })
+	}
+	select {
+	case <-done:
+	case <-time.After(20 * time.Second):
+		c.Violation("C11:hang:late-response", "the pending call does not return within 20 s after it was abandoned ("+label+")", map[string]any{"goroutines": census.Goroutines()})
+	}
+	cancel()
+	if variant != 2 {
+		// the client recovers: the next calls succeed on a fresh connection
+		w.judge(label, []outcome{w.call(cl, label+"-b"), w.call(cl, label+"-c")})
+	}
+	c.Distinct(core.Hash64("late", label))
+	core.Guard(func() { cl.Close() })
+	mu.Lock()
+	for _, l := range lcs {
+		l.Close()
+	}
+	mu.Unlock()
+	w.srv.Close()
+	leak(c, base, "late-response", label)
+}
+
 func Spec() *core.Spec {
 	slog.SetDefault(slog.New(slog.NewTextHandler(io.Discard, nil)))
 	return &core.Spec{
@@ -509,12 +612,18 @@ func Spec() *core.Spec {
 			"Monitors: panic/crash, own-id response or error, never two consecutive failed calls, <= 4 transmissions per request, calls fail after Close, goroutine census after Close. distinct = distinct (scenario kind, fault kind, operation index)",
 		Assumptions: []string{"recovery rule used: while the server is reachable and new connections are fault-free, two consecutive calls never both fail (a call pending at, or first after, the fault may fail)",
 			"goroutines gone = none with a library frame within 10 s of closing the client and the server (bounded progress)"},
-		Required: []string{"calls", "faults_fired.read-eof", "faults_fired.read-reset", "faults_fired.write-epipe", "faults_fired.short-write", "faults_fired.server-closes-after-reply", "faults_fired.server-closes-after-read",
+		Required: []string{"calls", "late_responses_held", "faults_fired.read-eof", "faults_fired.read-reset", "faults_fired.write-epipe", "faults_fired.short-write", "faults_fired.server-closes-after-reply", "faults_fired.server-closes-after-read",
 			"census_checks", "calls_after_close", "repeated_drops.k4", "repeated_drops.k5", "dialer_failure_scenarios", "concurrent_scenarios", "directed.terminate-before-send-select", "directed.close-in-flight"},
 		Shards: func(string) int { return 8 },
 		Families: []core.Family{
 			{Name: "matrix", Exhaustive: true, N: func(string) int { return maxOps * len(kinds) }, Run: matrix, Timeout: 40 * time.Second},
 			{Name: "repeated-drops", Exhaustive: true, N: func(string) int { return 16 }, Run: repeatedDrops, Timeout: 40 * time.Second},
+			{Name: "late-response", N: func(tier string) int {
+				if tier == core.Thorough {
+					return 600
+				}
+				return 30
+			}, Run: lateResponse, Timeout: 60 * time.Second},
 			{Name: "dialer-failures", N: func(tier string) int {
 				if tier == core.Thorough {
 					return 600
